@@ -74,6 +74,11 @@ pub fn build_transition_local_search_solver(
          start_time: Option<Instant>,
          _: Option<stdtime::Duration>,
          _: Option<u32>| {
+            #[cfg(rssched_verif)]
+            crate::verif_hooks::record_transition(
+                "tstep",
+                current_solution.solution().get_transition(),
+            );
             println!(
                 "Iteration {} - Swap: {}",
                 iteration_counter,
